@@ -24,7 +24,8 @@ RULE = ('histories = all sequences over {start, shutdown} of length 1..4; enviro
         'shutdown after a start with a fault, a pre-existing hook, or NO_TRACE'
         " ; start and shutdown on different threads x {sys hook, threading hook, caller's hook, NO_TRACE}; a second start() / a shutdown() arriving while the first start() is parked in a plugin's resource(); the starting thread ended and its ident given to a later thread (lazy / calling shutdown itself)")
 RULE_ADDED = "rounds 3-5: the starting thread's ident recycled; lifecycle sequences: two agents (either leaves first), restart from inside pending work, restart from another thread, start() entered again inside start(), the same agent restarted against a faithful service; three handlers x every sequence of their starts and shutdowns (depth 5 quick / 7 thorough) x 3 hook environments x 2 final shutdown orders (agents-bfs); restart under a second live agent; shutdown() arriving inside start()"
-RULE = RULE + ' ; ' + RULE_ADDED
+RULE_ADDED8 = "round 8: three handlers x two threads (agents-threads: every sequence of (handler, thread) operations, depth 5 quick / 6 thorough, worker born before the first or the second operation; each thread ends with the function it would have had); NO_TRACE changed between start and shutdown, NO_TRACE reading 'false'; twelve agents; the calls in progress (calling function, blocked thread) have the f_trace they had before start"
+RULE = RULE + ' ; ' + RULE_ADDED + ' ; ' + RULE_ADDED8
 ASSUMPTIONS = ['a start after a shutdown (restart) may be refused or work, but must leave hooks consistent with `started`',
                'the poll interval is long (no tick during the sequential histories); ticks racing shutdown are explored in the E1 harness']
 
@@ -99,13 +100,24 @@ def cases(tier, seed):
     for st, tt, mode in itertools.product((0, 1), (0, 1), ('lazy', 'direct')):
         out.append({'k': 'recycled', 'sys': st, 'thr': tt, 'mode': mode})
     for how in ('two-agents-first-leaves-first', 'two-agents-second-leaves-first', 'restart-inside-pending', 'restart-from-another-thread', 'reentrant-start', 'restart-same-agent',
-                'restart-under-second-agent-first-leaves-first', 'restart-under-second-agent-second-leaves-first', 'shutdown-inside-start', 'never-started-agent', 'shutdown-start-inside-shutdown'):
+                'restart-under-second-agent-first-leaves-first', 'restart-under-second-agent-second-leaves-first', 'shutdown-inside-start', 'never-started-agent', 'shutdown-start-inside-shutdown',
+                'no-trace-set-after-start', 'no-trace-cleared-after-start', 'many-agents', 'frames-released',
+                'no-trace-false-in-environment', 'no-trace-false-in-code'):
         for st, tt in itertools.product((0, 1), (0, 1)):
             out.append({'k': 'lifecycle', 'how': how, 'sys': st, 'thr': tt})
     # three handlers, every sequence of their starts and shutdowns (depth 5 quick / 7 thorough), sharded by the first operation
     for first in range(6):
         for st, tt in ((0, 0), (1, 1), (1, 0)):
             out.append({'k': 'agents-bfs', 'depth': 5 if tier == 'quick' else 7, 'first': first, 'sys': st, 'thr': tt})
+    # ... and with a second thread: every sequence of (handler, thread) operations where each start is on a stopped handler and each
+    # shutdown on a started one; the worker thread is born before the first operation or after it; sharded by the first two operations
+    for born in (0, 1):
+        for first in range(6):
+            for second in range(6):
+                out.append({'k': 'agents-threads', 'depth': 5 if tier == 'quick' else 6, 'born': born, 'first': first, 'second': second, 'sys': 1, 'thr': 1})
+    for st, tt in ((0, 0), (1, 1)):
+        out.append({'k': 'agents-threads', 'depth': 6, 'born': 1, 'sys': st, 'thr': tt,
+                    'seq': [[0, 'm'], [1, 'w'], [0, 'm'], [2, 'm'], [0, 'w'], [1, 'w']]})
     # a second start() / a shutdown() arriving while the first start() is still in progress (parked in a plugin's resource())
     for second in ('start', 'shutdown'):
         for st in (0, 1):
@@ -290,6 +302,94 @@ def recycled_case(ctx, desc):
                       f'{name(obs.get("late_after"))}, it is to have {name(want)}', desc)
 
 
+def agents_threads(ctx, desc):
+    """Three handlers, two threads: every sequence (to the depth bound) of operations (handler, thread) - the operation is start() when the
+    handler is stopped and shutdown() when it is started -, then every handler still started is shut down from the main thread and both threads
+    run a few traced calls: each thread has the trace function it would have had without any agent, the hook for new threads is what it was."""
+    import queue
+    n_agents, depth = 3, desc['depth']
+    pre = (fa if desc['sys'] else None, fb if desc['thr'] else None)
+    ops = [(a, t) for a in range(n_agents) for t in ('m', 'w')]
+    name = lambda f: getattr(f, '__name__', f) if getattr(f, '__self__', None) is None else 'agent'      # noqa: E731
+
+    def touch():
+        return 1
+    if 'seq' in desc:
+        seqs = [[tuple(x) for x in desc['seq']]]
+    else:
+        seqs = ([ops[desc['first']], ops[desc['second']]] + [ops[i] for i in rest] for rest in itertools.product(range(len(ops)), repeat=depth - 2))
+    saved = (sys.gettrace(), threading.gettrace())
+    try:
+        for seq in seqs:
+            if any(t == 'w' for _, t in seq[:desc['born']]):
+                continue        # the worker is not born yet
+            agents = [rig.Agent(plugins=[]) for _ in range(n_agents)]
+            q, r = queue.Queue(), queue.Queue()
+
+            def worker():
+                while True:
+                    c = q.get()
+                    if c is None:
+                        return
+                    try:
+                        r.put((c(), None))
+                    except BaseException as e:
+                        r.put((None, e))
+
+            def on(t, c):
+                if t == 'm':
+                    return c()
+                q.put(c)
+                v, e = r.get(timeout=30)
+                if e is not None:
+                    raise e
+                return v
+            sys.settrace(pre[0])
+            threading.settrace(pre[1])
+            started = [False] * n_agents
+            th = None
+            raised = None
+            try:
+                for i, (a, t) in enumerate(seq):
+                    if i == desc['born']:
+                        th = threading.Thread(target=worker, name='host-worker')
+                        th.start()
+                    on(t, agents[a].handler.shutdown if started[a] else agents[a].handler.start)
+                    started[a] = not started[a]
+                for a in range(n_agents):
+                    if started[a]:
+                        agents[a].handler.shutdown()
+                for _ in range(4):
+                    touch()
+                    on('w', touch)
+                after = (sys.gettrace(), threading.gettrace(), on('w', sys.gettrace))
+            except BaseException as e:      # noqa
+                raised, after = e, (None, None, None)
+            finally:
+                sys.settrace(None)
+                if th is not None:
+                    q.put(None)
+                    th.join(30)
+            ctx.case()
+            ctx.state((tuple(started), name(after[0]), name(after[1]), name(after[2])))
+            if len({a for a, _ in seq}) > 1 and len({t for _, t in seq}) > 1:
+                ctx.nt(tuple(seq))
+            want = (pre[0], pre[1], pre[1])
+            if raised is not None:
+                ctx.violation('C14/agents-threads/raised', f'sequence {seq} (worker born before operation {desc["born"]}): {raised!r}', dict(desc, seq=[list(x) for x in seq]))
+                return
+            if any(x is not y for x, y in zip(after, want)):
+                which = 'worker-thread' if after[2] is not want[2] else 'hooks'
+                ctx.violation(f'C14/agents-threads/{which}-not-restored', f'hooks before: sys={name(pre[0])} threading={name(pre[1])}; operations (handler, thread) {seq}, the worker '
+                              f'thread born before operation {desc["born"]}; then all shut down: main sys={name(after[0])} threading={name(after[1])} '
+                              f'worker sys={name(after[2])}', dict(desc, seq=[list(x) for x in seq]))
+                return
+        ctx.outcome(('agents-threads', depth, desc.get('first'), desc.get('second'), desc['born']))
+    finally:
+        sys.settrace(saved[0])
+        threading.settrace(saved[1])
+
+
 def agents_bfs(ctx, desc):
     """All sequences (to the depth bound) of start / shutdown of three handlers on one thread with hooks already present; then every handler
     is shut down (in either order) and the thread runs a few traced calls: the hooks are exactly what they were before the first start."""
@@ -375,7 +475,7 @@ def lifecycle_case(ctx, desc):
                             response=[PB(ID='t', path='c14life.py', line_number=0, args={'fire_count': '-1', 'fire_period': '0', 'method_name': 'job',
                                                                                         'stage': 'method_capture'})])
     chan = rig.FakeChannel(poll_handler=poll, send_handler=lambda r, m: SnapshotResponse())
-    ns, path = rig.load_program('c14life', 'def job(hook):\n    a = 1\n    hook()\n    b = a + 1\n    return b\ndef touch():\n    return 1\n')
+    ns, path = rig.load_program('c14life', 'def job(hook):\n    a = 1\n    hook()\n    b = a + 1\n    return b\ndef touch():\n    return 1\ndef block(ev):\n    ev.wait(20)\n    return 2\n')
     label = f'{how}, hooks before: sys={name(pre[0])} threading={name(pre[1])}'
     try:
         with rig.DeepWorld(custom={}, channel=chan) as w:
@@ -418,6 +518,86 @@ def lifecycle_case(ctx, desc):
                     for _ in range(3):
                         ns['touch']()
                     obs['second_sent'] = len(chan.sent())
+                elif how in ('no-trace-set-after-start', 'no-trace-cleared-after-start'):
+                    # the setting is read from the environment when it is asked for: what counts at shutdown is what start() did
+                    import os
+                    was = os.environ.get('DEEP_NO_TRACE')
+                    try:
+                        if how == 'no-trace-cleared-after-start':
+                            os.environ['DEEP_NO_TRACE'] = 'true'
+                        else:
+                            os.environ.pop('DEEP_NO_TRACE', None)
+                        d.start()
+                        obs['hooks_while_started'] = (sys.gettrace(), threading.gettrace())
+                        if how == 'no-trace-cleared-after-start':
+                            os.environ.pop('DEEP_NO_TRACE', None)
+                        else:
+                            os.environ['DEEP_NO_TRACE'] = 'true'
+                        d.shutdown()
+                        for _ in range(3):
+                            ns['touch']()
+                    finally:
+                        os.environ.pop('DEEP_NO_TRACE', None)
+                        if was is not None:
+                            os.environ['DEEP_NO_TRACE'] = was
+                elif how == 'frames-released':
+                    # the agent puts its function on the calls in progress when a tracepoint arrives; they are to be as they were after shutdown
+                    ev = threading.Event()
+                    t = threading.Thread(target=ns['block'], args=(ev,), name='host-blocked')
+                    t.start()
+
+                    def frame_of_blocked():
+                        f = sys._current_frames().get(t.ident)
+                        while f is not None and f.f_code.co_name != 'block':
+                            f = f.f_back
+                        return f
+                    t0 = time.time()
+                    while frame_of_blocked() is None and time.time() - t0 < 10:
+                        time.sleep(0.001)
+
+                    def hook():
+                        frames = (sys._getframe(1), frame_of_blocked())
+                        obs['f_before'] = tuple(f.f_trace for f in frames)
+                        d.start()
+                        t1 = time.time()
+                        while not d.trigger_handler._tp_config and time.time() - t1 < 10:
+                            time.sleep(0.001)
+                        obs['f_during'] = tuple(f.f_trace for f in frames)
+                        d.shutdown()
+                        obs['f_after'] = tuple(f.f_trace for f in frames)
+                    try:
+                        ns['job'](hook)
+                    finally:
+                        ev.set()
+                        t.join(20)
+                    ns['touch']()
+                elif how in ('no-trace-false-in-environment', 'no-trace-false-in-code'):
+                    # 'false' is not 'disabled': the agent is to install its hooks (and to take them away again)
+                    import os
+                    was = os.environ.get('DEEP_NO_TRACE')
+                    try:
+                        if how == 'no-trace-false-in-environment':
+                            os.environ['DEEP_NO_TRACE'] = 'false'
+                        else:
+                            d.config._ConfigService__custom['NO_TRACE'] = 'False'
+                        d.start()
+                        obs['hooks_while_started'] = (sys.gettrace(), threading.gettrace())
+                        d.shutdown()
+                        for _ in range(3):
+                            ns['touch']()
+                    finally:
+                        os.environ.pop('DEEP_NO_TRACE', None)
+                        if was is not None:
+                            os.environ['DEEP_NO_TRACE'] = was
+                elif how == 'many-agents':
+                    # as many agents as a test suite may make, started one after the other and shut down in the same order
+                    many = [d] + [_second_deep(w) for _ in range(11)]
+                    for x in many:
+                        x.start()
+                    for x in many:
+                        x.shutdown()
+                    for _ in range(3):
+                        ns['touch']()
                 elif how == 'shutdown-start-inside-shutdown':
                     class Again(rig.RecDecorator):
                         def shutdown(self_):
@@ -508,6 +688,16 @@ def lifecycle_case(ctx, desc):
     elif obs.get('live_keeps_hooks') not in (None, (True, True)):
         ctx.violation(f'C14/lifecycle/{how}/live-agent-loses-its-hooks', f'{label}: the first agent was shut down while the second is live: the second agent\'s function is installed as '
                       f'(sys, threading) hook: {obs["live_keeps_hooks"]}', desc)
+    elif how == 'no-trace-cleared-after-start' and (obs['hooks_while_started'][0] is not pre[0] or obs['hooks_while_started'][1] is not pre[1]):
+        ctx.violation(f'C14/lifecycle/{how}/hooks-touched', f'{label}: tracing disabled, yet while started sys={name(obs["hooks_while_started"][0])} '
+                      f'threading={name(obs["hooks_while_started"][1])}', desc)
+    elif how.startswith('no-trace-false') and not all(getattr(f, '__self__', None) is d.trigger_handler for f in obs['hooks_while_started']):
+        ctx.violation(f'C14/lifecycle/{how}/hooks-not-installed', f'{label}: NO_TRACE reads false, yet while started sys={name(obs["hooks_while_started"][0])} '
+                      f'threading={name(obs["hooks_while_started"][1])}', desc)
+    elif how == 'frames-released' and obs.get('f_after') != obs.get('f_before', ()):
+        ctx.violation(f'C14/lifecycle/{how}/calls-in-progress-keep-the-agent', f'{label}: trace function of the calls in progress (the calling function, a blocked thread) before start '
+                      f'{tuple(name(f) for f in obs.get("f_before", ()))}, with a tracepoint installed {tuple(name(f) for f in obs.get("f_during", ()))}, after shutdown '
+                      f'{tuple(name(f) for f in obs.get("f_after", ()))}', desc)
     elif obs['after'][0] is not pre[0] or obs['after'][1] is not pre[1]:
         ctx.violation(f'C14/lifecycle/{how}/hooks-not-restored', f'{label}: after the last shutdown sys={name(obs["after"][0])} threading={name(obs["after"][1])}', desc)
     elif how in ('shutdown-inside-start', 'shutdown-start-inside-shutdown') and (obs.get('started_after_start') or obs.get('timers') or obs['hooks_after_start'][0] is not pre[0] or obs['hooks_after_start'][1] is not pre[1]):
@@ -619,6 +809,8 @@ def run_case(ctx, desc):
         return lifecycle_case(ctx, desc)
     if desc['k'] == 'agents-bfs':
         return agents_bfs(ctx, desc)
+    if desc['k'] == 'agents-threads':
+        return agents_threads(ctx, desc)
     if desc['k'] == 'overlap':
         return overlap_case(ctx, desc)
     faults = [desc['fault']] if 'fault' in desc else FAULTS
